@@ -308,7 +308,7 @@ pub fn cancel_case<D: Distance>(spec: &HistorySpec, same_txn: bool, deletions_on
 /// LMDB map-size ladder: from too small for the items to ample.
 pub fn map_ladder<D: Distance>(spec: &HistorySpec, st: &mut CaseStats) -> Result<(), Fail> {
     let isp = &spec.indexes[0];
-    let b = spec.rounds[0].builds.first().cloned().unwrap_or(BuildOpts { ix: 0, n_trees: Some(2), split_after: None, avail_mem: None, rng_seed: 1, threads: 1, cancel_at: None });
+    let b = spec.rounds[0].builds.first().cloned().unwrap_or(BuildOpts { ix: 0, n_trees: Some(2), split_after: None, avail_mem: None, rng_seed: 1, threads: 1, cancel_at: None, twice: false });
     let b = BuildOpts { threads: 1, cancel_at: None, ..b };
     let mut size = 32 * 1024usize;
     let mut succeeded = 0;
@@ -406,7 +406,7 @@ pub fn map_ladder<D: Distance>(spec: &HistorySpec, st: &mut CaseStats) -> Result
 pub fn tmpdir_faults<D: Distance>(spec: &HistorySpec, incremental: bool, deletions_only: bool, st: &mut CaseStats) -> Result<(), Fail> {
     let tenv = TestEnv::new(DEFAULT_MAP).map_err(Fail::Infra)?;
     let isp = &spec.indexes[0];
-    let b = spec.rounds[0].builds.first().cloned().unwrap_or(BuildOpts { ix: 0, n_trees: Some(2), split_after: None, avail_mem: None, rng_seed: 1, threads: 1, cancel_at: None });
+    let b = spec.rounds[0].builds.first().cloned().unwrap_or(BuildOpts { ix: 0, n_trees: Some(2), split_after: None, avail_mem: None, rng_seed: 1, threads: 1, cancel_at: None, twice: false });
     let b = BuildOpts { threads: 1, cancel_at: None, ..b };
     let (db, raw, model) = if incremental {
         let (db, raw, writers, mut model) = setup_base::<D>(&tenv, spec, st)?;
@@ -545,7 +545,7 @@ pub fn leak_census(report: &mut Report, rounds: usize) -> Result<(), Fail> {
     // warm up once (lazy statics, pools)
     let run = |w: &Writer<Euclidean>, cancel_at: Option<u64>, threads: usize| -> Result<(), Fail> {
         let mut wtxn = tenv.env.write_txn().map_err(|e| Fail::Infra(format!("{e}")))?;
-        let b = BuildOpts { ix: 0, n_trees: Some(3), split_after: None, avail_mem: None, rng_seed: 3, threads, cancel_at };
+        let b = BuildOpts { ix: 0, n_trees: Some(3), split_after: None, avail_mem: None, rng_seed: 3, threads, cancel_at, twice: false };
         let out = do_build::<Euclidean>(w, &mut wtxn, &b, 10_000_000);
         match (cancel_at, out) {
             (None, BuildOutcome::Ok { .. }) | (Some(_), BuildOutcome::Cancelled { .. }) | (Some(_), BuildOutcome::Ok { .. }) => {}
@@ -570,7 +570,7 @@ pub fn leak_census(report: &mut Report, rounds: usize) -> Result<(), Fail> {
     w2.set_tmpdir(tenv.dir.join("missing").join("dir"));
     for _ in 0..rounds / 3 {
         let mut wtxn = tenv.env.write_txn().map_err(|e| Fail::Infra(format!("{e}")))?;
-        let b = BuildOpts { ix: 0, n_trees: Some(3), split_after: None, avail_mem: None, rng_seed: 3, threads: 1, cancel_at: None };
+        let b = BuildOpts { ix: 0, n_trees: Some(3), split_after: None, avail_mem: None, rng_seed: 3, threads: 1, cancel_at: None, twice: false };
         match do_build::<Euclidean>(&w2, &mut wtxn, &b, 10_000_000) {
             BuildOutcome::Err(_) => {}
             BuildOutcome::Panic(p) => return violation("tmpdir:panic", format!("build with a missing temp dir panicked: {}", p.message)),
@@ -583,7 +583,7 @@ pub fn leak_census(report: &mut Report, rounds: usize) -> Result<(), Fail> {
     {
         let w3 = Writer::<Euclidean>::new(db, 0, 3);
         let saved = std::env::var_os("TMPDIR");
-        let b = BuildOpts { ix: 0, n_trees: Some(3), split_after: None, avail_mem: None, rng_seed: 3, threads: 1, cancel_at: None };
+        let b = BuildOpts { ix: 0, n_trees: Some(3), split_after: None, avail_mem: None, rng_seed: 3, threads: 1, cancel_at: None, twice: false };
         for round in 0..3 {
             std::env::set_var("TMPDIR", tenv.dir.join(format!("missing-tmp-{round}")));
             let mut wtxn = tenv.env.write_txn().map_err(|e| Fail::Infra(format!("{e}")))?;
